@@ -4,24 +4,40 @@ import IbModel.Proofs.Pipeline
 # C08 — collections are lazy, immutable and re-runnable; branches do not interfere
 
 Model: `Model/Pipeline.lean` (the shared graph behind `Arc<Mutex<..>>`, atomic steps at LOCK granularity,
-builders and `collect` as step sequences, threads as programs, `run` = execute a schedule).
+builders and `collect` as step sequences, threads as programs, `run` = execute a schedule; reading a source through
+its `VecOps` with the payload as a STATE).
 Everything below is for EVERY node payload type `N`, EVERY list of thread programs (any number of threads,
-any operations: new source / derive — `map`, `filter`, `group_by_key`, `combine_values`, `combine_values_lifted`,
-`combine_globally`, … : every builder that is one `insert_node` + one `connect` — / join of any of the four
-kinds / collect / `set_metrics` / `take_metrics`), and EVERY schedule (= interleaving), by induction — no bound.
+any operations: new source / derive — every builder that is one `insert_node` + one `connect`: `map`, `filter`,
+`flat_map`, `map_values`, `filter_values`, `map_batches`, `map_values_batches`, `apply_transform`, the debug taps,
+`group_by_key`, `combine_values`, `combine_values_lifted`, `combine_globally`, `combine_globally_lifted`; that the ~20
+copies of that two-call body in the crate ARE that sequence is observed by the harness' lock-site trace for each of
+them — / join of any of the four kinds / collect / `set_metrics` / `take_metrics` / `get_metrics`), and EVERY
+schedule (= interleaving), by induction — no bound.
 
 A handle is *published* (`x ∈ c.pool`) from the moment its builder has returned (for `derive`/`join`: after the
-`connect`; for `from_vec`: after the `insert_node`). Before that nobody but the building thread knows the id
+`connect`; for a source: after the `insert_node`). Before that nobody but the building thread knows the id
 (`PC.resv`), so a collect or derive racing with the builder's own insert/connect cannot be written.
+
+**Lineage** (`derive_lineage`, `join_lineage`, `lineage_of_source`): the chain a new handle is born with is the
+parent's born chain followed by THE BUILDER'S OWN payload, resp. `[dummy, CoGroup(tag, born l, born r)]` for the join's
+OWN operands `l`, `r` — whatever other threads do between the builder's lock acquisitions;
+`collect_reads_birth_lineage`: every collect of `x`, ever, executes the chain `x` was born with.
 
 **Laziness** is stated on an explicit trace: every thread carries `calls`, the list of chains whose user
 functions (closures, `CombineFn`s) it has run. `build_step_runs_no_user_code`: every atomic step other than
-the last step of a `collect` — i.e. every step of every builder, of `set_metrics`/`take_metrics`, and the
-first steps of a collect — leaves EVERY thread's trace unchanged. `calls_are_collects`: the trace is exactly
-the chains of the finished collects. `lazy_until_collect`: it is empty as long as no collect has finished;
-`build_only_programs_run_no_user_code`: programs without a collect never run user code, under any schedule.
-`calls_only_own_lineage`: every run is a run of the BORN lineage of the collected handle — no collect runs
-a closure of another branch.
+the last step of a `collect` — i.e. every step of every builder, of `set/take/get_metrics`, the first steps of a
+collect and its planner-error exit — leaves EVERY thread's trace unchanged. `calls_are_collects`: the trace is exactly
+the chains of the finished collects. `lazy_until_collect`, `build_only_programs_run_no_user_code`,
+`calls_only_own_lineage`. These are statements about the MODEL's ghost trace (a builder that called a user function
+is not expressible in it); that the real builders call nothing is decided by the harness (call counters of every
+user function sampled after every lock step).
+
+**Never consumes its source**: `graph_append_only` / `payload_persists` (no node is removed or replaced) and
+`source_never_consumed` (a `VecOps` that only reads — `vecOps_readOnly` for `from_vec` — yields the same rows in every
+run, any modes, and leaves the payload as it was; `drained_source_is_consumed` is the behaviour guarded against).
+
+Not in this file: that the planner passes and the two engines compute the same rows from a chain (C01–C07); "either
+mode" is exercised by the harness only (the model's collect does not look at the mode).
 -/
 namespace IB.Graph
 variable {N : Type}
@@ -149,14 +165,31 @@ theorem collect_chain_exists (kit : Kit N) {c : Cfg N} (h : Reachable kit c) (j 
   simp only at hb
   rw [← hb.2]; exact this
 
-/-- **Joins capture their operands' own lineage**: the two chains a `join` stores in its `CoGroup` node
-    (read by two separate snapshots while other threads keep building) are the chains its operands were
-    born with. -/
+/-- **Joins capture their operands' own lineage**: the two chains a `join` of `l` and `r` stores in its `CoGroup` node
+    (read by two separate snapshots while other threads keep building) are the chains ITS OWN operands `l` and `r` were
+    born with — not those of any other handle. (`l`, `r` are fixed by `beginOp` when the operation starts and only
+    copied from stage to stage: `join_stage_keeps_operands`.) -/
 theorem join_reads_birth_lineage (kit : Kit N) {c : Cfg N} (h : Reachable kit c) (j : Nat) (th : Thread N)
-    (hj : c.threads[j]? = some th) (d tag : Nat) (lc rc : List N) (hpc : th.pc = .joinInsG d tag lc rc) :
-    ∃ l r, (l, some lc) ∈ c.born ∧ (r, some rc) ∈ c.born := by
+    (hj : c.threads[j]? = some th) (l r d tag : Nat) (lc rc : List N) (hpc : th.pc = .joinInsG l r d tag lc rc) :
+    (l, some lc) ∈ c.born ∧ (r, some rc) ∈ c.born := by
   rcases h with ⟨progs, sched, rfl⟩
-  exact (ginv_run kit sched _ (inv_init progs) (ginv_init progs)).pcJoin j th hj tag lc rc (Or.inr ⟨d, hpc⟩)
+  exact (ginv_run kit sched _ (inv_init progs) (ginv_init progs)).pcJoin j th hj l r tag lc rc (Or.inr (Or.inl ⟨d, hpc⟩))
+
+/-- a join's operands (and tag) are what `begin` resolved, and every later stage of the join carries the same ones -/
+theorem join_stage_keeps_operands (kit : Kit N) (c : Cfg N) (th : Thread N) :
+    (∀ l r tag lc, (stepTh kit c th).2.pc = .joinSnapR l r tag lc → th.pc = .joinSnapL l r tag) ∧
+    (∀ l r tag lc rc, (stepTh kit c th).2.pc = .joinInsD l r tag lc rc → th.pc = .joinSnapR l r tag lc) ∧
+    (∀ l r d tag lc rc, (stepTh kit c th).2.pc = .joinInsG l r d tag lc rc → th.pc = .joinInsD l r tag lc rc) ∧
+    (∀ l r d g tag lc rc, (stepTh kit c th).2.pc = .joinCon l r d g tag lc rc → th.pc = .joinInsG l r d tag lc rc) :=
+  have f := stepTh_thread kit c th
+  ⟨fun l r tag lc h => (f.joinR l r tag lc h).1, fun l r tag lc rc h => (f.joinD l r tag lc rc h).1,
+   fun l r d tag lc rc h => (f.joinG l r d tag lc rc h).1, fun l r d g tag lc rc h => (f.joinC l r d g tag lc rc h).1⟩
+
+/-- … and `begin` of `join lr rr tag` starts the first stage with the handles the two references resolve to -/
+theorem join_begins_with_its_operands (c : Cfg N) (th : Thread N) (lr rr : Ref) (tag a b : Nat) (rest : List (Op N))
+    (ha : resolveCls c.pool c.cls th.own 0 lr = some a) (hb : resolveCls c.pool c.cls th.own 0 rr = some b) :
+    (beginOp c th (.join lr rr tag) rest).pc = .joinSnapL a b tag := by
+  simp [beginOp, ha, hb]
 
 /-- **Immutable, append-only**: whatever any thread does, the node list and the edge list only grow at the
     end — no node (in particular no source payload) is ever removed, replaced or consumed, no edge changed. -/
@@ -196,8 +229,9 @@ theorem build_step_runs_no_user_code (kit : Kit N) (c : Cfg N) (i : Nat)
 
 /-- the only step that extends a trace: the end of a collect appends the chain that collect planned -/
 theorem collect_end_runs_its_chain (kit : Kit N) (c : Cfg N) (i : Nat) (th : Thread N)
-    (hi : c.threads[i]? = some th) (x : Nat) (ch : Option (List N)) (hpc : th.pc = .colEnd x ch) :
-    ∃ th', (step kit c i).threads[i]? = some th' ∧ th'.calls = th.calls ++ ch.toList := by
+    (hi : c.threads[i]? = some th) (x : Nat) (ch : List N) (hpc : th.pc = .colEnd x ch) :
+    ∃ th', (step kit c i).threads[i]? = some th' ∧ th'.calls = th.calls ++ [ch] ∧
+      th'.outs = th.outs ++ [.collected x (some ch)] := by
   refine ⟨(stepTh kit c th).2, ?_, ?_⟩
   · rw [step_threads kit c i th hi]
     have hlt : i < c.threads.length := by
@@ -206,6 +240,29 @@ theorem collect_end_runs_its_chain (kit : Kit N) (c : Cfg N) (i : Nat) (th : Thr
       · rw [List.getElem?_eq_none h1] at hi; cases hi
     simp [hlt]
   · simp [stepTh, hpc, Thread.finish]
+
+/-- **The planner-error exit** (`build_plan(p, terminal)?` in `run_collect`): when the back-walk fails, the collect
+    returns at once — outcome "error", NO user code run, and no `record_metrics_end` step follows (the thread is idle). -/
+theorem planner_error_skips_execution (kit : Kit N) (c : Cfg N) (i : Nat) (th : Thread N)
+    (hi : c.threads[i]? = some th) (x : Nat) (hpc : th.pc = .colSnap x) (hb : backwalk c.g x = none) :
+    ∃ th', (step kit c i).threads[i]? = some th' ∧ th'.pc = .idle ∧ th'.calls = th.calls ∧
+      th'.outs = th.outs ++ [.collected x none] := by
+  refine ⟨(stepTh kit c th).2, ?_, ?_, ?_, ?_⟩
+  · rw [step_threads kit c i th hi]
+    have hlt : i < c.threads.length := by
+      rcases Nat.lt_or_ge i c.threads.length with h1 | h1
+      · exact h1
+      · rw [List.getElem?_eq_none h1] at hi; cases hi
+    simp [hlt]
+  all_goals simp [stepTh, hpc, hb, Thread.finish]
+
+/-- … and that exit is never taken from a reachable configuration: a thread about to plan holds a published handle,
+    whose back-walk succeeds -/
+theorem planner_error_unreachable (kit : Kit N) {c : Cfg N} (h : Reachable kit c) (i : Nat) (th : Thread N)
+    (hi : c.threads[i]? = some th) (x : Nat) (hpc : th.pc = .colSnap x) : (backwalk c.g x).isSome := by
+  have inv := inv_reachable kit h
+  have hx : x ∈ c.pool := inv.held i th.view (abs_views_get c i th hi) x (by simp [Thread.view, hpc, PC.held])
+  exact backwalk_isSome inv (inv.poolLt x hx)
 
 /-- **The trace is exactly the finished collects**: in every reachable configuration each thread's trace is
     the list of the chains of its `collected` outcomes, in order (`Outcome.ran`). -/
@@ -257,11 +314,13 @@ theorem calls_only_own_lineage (kit : Kit N) {c : Cfg N} (h : Reachable kit c) (
       exact ⟨x, ho, collect_reads_birth_lineage kit h j th hj x _ ho⟩
   | _ => simp [Outcome.ran] at hm
 
-/-- `set_metrics` / `take_metrics` racing with anything: they never touch the graph, the pool or a lineage -/
+/-- `set_metrics` / `take_metrics` / `get_metrics` racing with anything: they never touch the graph, the pool or a
+    lineage (and `get_metrics` does not even change whether a collector is installed) -/
 theorem metrics_ops_leave_graph (kit : Kit N) (c : Cfg N) (i : Nat) (th : Thread N)
-    (hi : c.threads[i]? = some th) (hpc : th.pc = .metSet ∨ th.pc = .metTake) :
-    (step kit c i).g = c.g ∧ (step kit c i).pool = c.pool ∧ (step kit c i).born = c.born := by
-  rcases hpc with hpc | hpc <;> simp [step, hi, stepTh, hpc]
+    (hi : c.threads[i]? = some th) (hpc : th.pc = .metSet ∨ th.pc = .metTake ∨ th.pc = .metGet) :
+    (step kit c i).g = c.g ∧ (step kit c i).pool = c.pool ∧ (step kit c i).born = c.born ∧
+    (th.pc = .metGet → (step kit c i).metrics = c.metrics) := by
+  rcases hpc with hpc | hpc | hpc <;> simp [step, hi, stepTh, hpc]
 
 /-! ## a collection's lineage is structural: it is fixed by the builder call that made it
 
@@ -273,18 +332,8 @@ node; for a join: the dummy source followed by the `CoGroup` node (which holds t
 
 /-- the node payload a builder inserts is stored under the id it gets … -/
 theorem insert_stores_payload (kit : Kit N) {c : Cfg N} (h : Reachable kit c) (n : N) :
-    lookupNode (insertNode c.g n).1.nodes c.g.nextId = some n := by
-  have inv := inv_reachable kit h
-  have hids0 : c.g.nodes.map Prod.fst = List.range c.g.nextId := inv.ids
-  rw [insertNode_fst c.g n hids0]
-  apply lookupNode_append_last
-  intro p hp hk
-  have : p.1 ∈ c.g.nodes.map Prod.fst := List.mem_map_of_mem hp
-  have hids := inv.ids
-  simp only [Cfg.abs] at hids
-  rw [hids] at this
-  have := List.mem_range.mp this
-  omega
+    lookupNode (insertNode c.g n).1.nodes c.g.nextId = some n :=
+  lookup_insertNode (a := c.abs) (inv_reachable kit h) n
 
 /-- … and stays there, unchanged, forever (sources are never consumed, closures never replaced) -/
 theorem payload_persists (kit : Kit N) {c : Cfg N} (h : Reachable kit c) (sched : List Nat) (k : Nat) (n : N)
@@ -307,29 +356,62 @@ theorem lineage_of_source (kit : Kit N) {c : Cfg N} (h : Reachable kit c) (i : N
   simp only [Cfg.abs] at this
   omega
 
-/-- `map`/`filter`/`group_by_key`/`combine_values`/`combine_globally`/…: when the builder's `connect` happens — however long after its `insert`, whatever other
-    threads did in between — the new collection's lineage is the parent's lineage followed by the new node -/
+/-- reachable configurations satisfy the payload invariant -/
+theorem pinv_reachable (kit : Kit N) {c : Cfg N} (h : Reachable kit c) : PInv kit c := by
+  rcases h with ⟨progs, sched, rfl⟩
+  exact pinv_run kit sched _ (inv_init progs) (pinv_init kit progs)
+
+/-- **Derived collections** (`map`/`filter`/`flat_map`/`map_values`/`map_batches`/`apply_transform`/`group_by_key`/
+    `combine_*`/debug taps/…: every builder that is one `insert_node` + one `connect`): when the builder's `connect`
+    happens — however long after its `insert`, whatever other threads did in between — the new collection's lineage is
+    the parent's BORN lineage followed by THE BUILDER'S OWN payload `n` (the closure / combiner it was called with),
+    and that is what is recorded as the new handle's born lineage. -/
+theorem derive_lineage (kit : Kit N) {c : Cfg N} (h : Reachable kit c) (i : Nat) (th : Thread N)
+    (hi : c.threads[i]? = some th) (p m k : Nat) (n : N) (hpc : th.pc = .drvCon p m k n) :
+    ∃ pch, (p, pch) ∈ c.born ∧ backwalk (step kit c i).g m = pch.map (· ++ [n]) ∧
+      (m, pch.map (· ++ [n])) ∈ (step kit c i).born := by
+  have inv := inv_reachable kit h
+  have hv := abs_views_get c i th hi
+  have hR := inv.resv i th.view hv m (by simp [Thread.view, hpc, PC.resv])
+  have hlt := (inv.ord i th.view hv).1 m (by simp [Thread.view, hpc, PC.resv]) p (by simp [Thread.view, hpc, PC.held])
+  have hn := (pinv_reachable kit h).drv i th hi p m k n hpc
+  have hp : p ∈ c.pool := inv.held i th.view hv p (by simp [Thread.view, hpc, PC.held])
+  rcases (born_is_current kit h).2 p hp with ⟨pch, hpch⟩
+  have hcur := ((born_is_current kit h).1 _ hpch).2
+  simp only at hcur
+  have hg : (step kit c i).g = connect c.g p m := by simp [step, hi, stepTh, hpc, publish]
+  have hw : backwalk (step kit c i).g m = pch.map (· ++ [n]) := by
+    rw [hg, backwalk_connect_new c.g p m n hn hR.2.2 (by omega), hcur]
+  refine ⟨pch, hpch, hw, ?_⟩
+  have hb : (step kit c i).born = c.born ++ [(m, backwalk (connect c.g p m) m)] := by
+    simp [step, hi, stepTh, hpc, publish]
+  rw [hb, ← hg, hw]; simp
+
+/-- the same, at the level of the graph only (kept from round 2; `derive_lineage` is the full statement) -/
 theorem lineage_of_derive (kit : Kit N) {c : Cfg N} (h : Reachable kit c) (i : Nat) (th : Thread N)
-    (hi : c.threads[i]? = some th) (p m k : Nat) (hpc : th.pc = .drvCon p m k) :
-    ∃ n, lookupNode c.g.nodes m = some n ∧
+    (hi : c.threads[i]? = some th) (p m k : Nat) (n : N) (hpc : th.pc = .drvCon p m k n) :
+    lookupNode c.g.nodes m = some n ∧
       backwalk (step kit c i).g m = (backwalk c.g p).map (· ++ [n]) := by
   have inv := inv_reachable kit h
   have hv := abs_views_get c i th hi
   have hR := inv.resv i th.view hv m (by simp [Thread.view, hpc, PC.resv])
   have hlt := (inv.ord i th.view hv).1 m (by simp [Thread.view, hpc, PC.resv]) p (by simp [Thread.view, hpc, PC.held])
-  have hsome := lookupNode_isSome_of_mem c.g.nodes m (by
-    have := inv.ids; simp only [Cfg.abs] at this; rw [this]; exact List.mem_range.mpr hR.1)
-  rcases Option.isSome_iff_exists.mp hsome with ⟨n, hn⟩
-  refine ⟨n, hn, ?_⟩
+  have hn := (pinv_reachable kit h).drv i th hi p m k n hpc
+  refine ⟨hn, ?_⟩
   have hg : (step kit c i).g = connect c.g p m := by simp [step, hi, stepTh, hpc, publish]
   rw [hg]
   exact backwalk_connect_new c.g p m n hn hR.2.2 (by omega)
 
-/-- `join_*`: the new collection's lineage is the dummy source followed by the `CoGroup` node -/
-theorem lineage_of_join (kit : Kit N) {c : Cfg N} (h : Reachable kit c) (i : Nat) (th : Thread N)
-    (hi : c.threads[i]? = some th) (d g : Nat) (hpc : th.pc = .joinCon d g) :
-    ∃ nd ng, lookupNode c.g.nodes d = some nd ∧ lookupNode c.g.nodes g = some ng ∧
-      backwalk (step kit c i).g g = some [nd, ng] := by
+/-- **Joins**: when the join's `connect` happens, the new collection's lineage is exactly
+    `[dummy source, CoGroup(tag, born chain of l, born chain of r)]` for the join's own operands `l`, `r` — whatever
+    other threads inserted, connected or collected between the join's five lock acquisitions — and that is what is
+    recorded as the new handle's born lineage. So every later collect of `l.join(r)` runs the cogroup of the lineages
+    `l` and `r` had when they were built (`collect_reads_birth_lineage`). -/
+theorem join_lineage (kit : Kit N) {c : Cfg N} (h : Reachable kit c) (i : Nat) (th : Thread N)
+    (hi : c.threads[i]? = some th) (l r d g tag : Nat) (lc rc : List N) (hpc : th.pc = .joinCon l r d g tag lc rc) :
+    backwalk (step kit c i).g g = some [kit.dummy, kit.cogroup tag lc rc] ∧
+    (l, some lc) ∈ c.born ∧ (r, some rc) ∈ c.born ∧
+    (g, some [kit.dummy, kit.cogroup tag lc rc]) ∈ (step kit c i).born := by
   have inv := inv_reachable kit h
   have hv := abs_views_get c i th hi
   have hD := inv.resv i th.view hv d (by simp [Thread.view, hpc, PC.resv])
@@ -338,17 +420,94 @@ theorem lineage_of_join (kit : Kit N) {c : Cfg N} (h : Reachable kit c) (i : Nat
     have := (inv.ord i th.view hv).2
     simp [Thread.view, hpc, PC.resv] at this
     exact this
-  have hids := inv.ids
-  simp only [Cfg.abs] at hids
-  rcases Option.isSome_iff_exists.mp (lookupNode_isSome_of_mem c.g.nodes d (by
-    rw [hids]; exact List.mem_range.mpr hD.1)) with ⟨nd, hnd⟩
-  rcases Option.isSome_iff_exists.mp (lookupNode_isSome_of_mem c.g.nodes g (by
-    rw [hids]; exact List.mem_range.mpr hG.1)) with ⟨ng, hng⟩
-  refine ⟨nd, ng, hnd, hng, ?_⟩
+  have hP := (pinv_reachable kit h).jC i th hi l r d g tag lc rc hpc
+  have hB : (l, some lc) ∈ c.born ∧ (r, some rc) ∈ c.born := by
+    rcases h with ⟨progs, sched, rfl⟩
+    exact (ginv_run kit sched _ (inv_init progs) (ginv_init progs)).pcJoin i th hi l r tag lc rc (Or.inr (Or.inr ⟨d, g, hpc⟩))
   have hg : (step kit c i).g = connect c.g d g := by simp [step, hi, stepTh, hpc, publish]
-  rw [hg, backwalk_connect_new c.g d g ng hng hG.2.2 (by omega),
-    backwalk_root c.g d nd hnd (fun e he => (hD.2.2 e he).2)]
-  rfl
+  have hw : backwalk (step kit c i).g g = some [kit.dummy, kit.cogroup tag lc rc] := by
+    rw [hg, backwalk_connect_new c.g d g _ hP.2 hG.2.2 (by omega),
+      backwalk_root c.g d _ hP.1 (fun e he => (hD.2.2 e he).2)]
+    rfl
+  refine ⟨hw, hB.1, hB.2, ?_⟩
+  have hb : (step kit c i).born = c.born ++ [(g, backwalk (connect c.g d g) g)] := by
+    simp [step, hi, stepTh, hpc, publish]
+  rw [hb, ← hg, hw]; simp
+
+/-- the same, at the level of the graph only (kept from round 2; `join_lineage` is the full statement) -/
+theorem lineage_of_join (kit : Kit N) {c : Cfg N} (h : Reachable kit c) (i : Nat) (th : Thread N)
+    (hi : c.threads[i]? = some th) (l r d g tag : Nat) (lc rc : List N) (hpc : th.pc = .joinCon l r d g tag lc rc) :
+    lookupNode c.g.nodes d = some kit.dummy ∧ lookupNode c.g.nodes g = some (kit.cogroup tag lc rc) ∧
+      backwalk (step kit c i).g g = some [kit.dummy, kit.cogroup tag lc rc] :=
+  have hP := (pinv_reachable kit h).jC i th hi l r d g tag lc rc hpc
+  ⟨hP.1, hP.2, (join_lineage kit h i th hi l r d g tag lc rc hpc).1⟩
+
+/-- **The decidable graph check the driver evaluates on real snapshots** (`GINV` requests) is exactly the graph part
+    of the invariant: `AInv.ids`, `AInv.edgeLt`, `AInv.inDeg`. -/
+theorem graphInvB_iff (nextId : Nat) (ids : List Nat) (edges : List (Nat × Nat)) :
+    graphInvB nextId ids edges = true ↔
+      (ids = List.range nextId ∧ (∀ e ∈ edges, e.1 < e.2 ∧ e.2 < nextId) ∧ (edges.map Prod.snd).Nodup) := by
+  simp [graphInvB, nodupB_iff, and_assoc]
+
+/-- hence it holds of every reachable graph -/
+theorem graphInvB_reachable (kit : Kit N) {c : Cfg N} (h : Reachable kit c) :
+    graphInvB c.g.nextId (c.g.nodes.map Prod.fst) c.g.edges = true := by
+  have inv := inv_reachable kit h
+  exact (graphInvB_iff _ _ _).mpr ⟨inv.ids, inv.edgeLt, inv.inDeg⟩
+
+/-! ## "never consumes its source": reading a source through its `VecOps`
+
+`Model/Pipeline.lean: readSource` is how `exec_seq` / `exec_par` (and the join sub-plans) read a `Node::Source`; the
+payload is a STATE the `VecOps` may change, so a draining source is expressible. -/
+
+/-- **A read-only `VecOps` is never consumed**: after ANY number of runs in ANY modes (sequential, parallel with any
+    partition counts) the payload is what it was, and EVERY run read the same rows — the rows of `clone_any`. -/
+theorem source_never_consumed {σ R : Type} (ops : SrcOps σ R) (ro : ReadOnly ops) (s : σ) (modes : List (Option Nat)) :
+    (readMany ops s modes).1 = s ∧ ∀ rows ∈ (readMany ops s modes).2, rows = (ops.cloneAny s).2 := by
+  induction modes with
+  | nil => simp [readMany]
+  | cons m rest ih =>
+    have h1 := readSource_readOnly ops ro s m
+    simp only [readMany]
+    rw [h1.1]
+    refine ⟨ih.1, ?_⟩
+    intro rows hr
+    rcases List.mem_cons.mp hr with rfl | hr
+    · exact h1.2
+    · exact ih.2 rows hr
+
+/-- `VecOpsImpl<T>` (`from_vec`) satisfies the contract: it returns the payload untouched and its chunks concatenate
+    to the whole vector, for every partition count -/
+theorem vecOps_readOnly (R : Type) : ReadOnly (vecOps R) := by
+  refine ⟨fun s => rfl, ?_, ?_⟩
+  · intro s n; simp only [vecOps]; split <;> rfl
+  · intro s n parts h
+    simp only [vecOps] at h ⊢
+    split at h
+    · simp at h; subst h; simp
+    · next hc =>
+      simp at h; subst h
+      have hk : 0 < (s.length + n - 1) / n := by
+        have hn : 1 < n := by omega
+        exact Nat.div_pos (by omega) (by omega)
+      rw [chunksGo_flatten _ hk s.length s (Nat.le_refl _)]
+
+/-- hence: a `from_vec` source, collected any number of times in any modes, always yields its rows -/
+theorem from_vec_rereadable (R : Type) (v : List R) (modes : List (Option Nat)) :
+    (readMany (vecOps R) v modes).1 = v ∧ ∀ rows ∈ (readMany (vecOps R) v modes).2, rows = some v :=
+  source_never_consumed (vecOps R) (vecOps_readOnly R) v modes
+
+/-- witness (what the check guards against): a source that is drained by its first read — the second collect of the
+    same collection returns nothing although the first returned the rows -/
+theorem drained_source_is_consumed :
+    (readMany (Variant.drainOps Nat) [1, 2, 3] [none, none]).2 = [some [1, 2, 3], some []] ∧
+    (readMany (Variant.drainOps Nat) [1, 2, 3] [some 2, none]).2 = [some [1, 2, 3], some []] := by decide
+
+/-- witness: the real `VecOpsImpl` chunking, 5 rows in 2 and in 3 partitions, then sequentially -/
+example : (readSource (vecOps Nat) [1, 2, 3, 4, 5] (some 2)).2 = some [[1, 2, 3], [4, 5]] ∧
+    (readSource (vecOps Nat) [1, 2, 3, 4, 5] (some 3)).2 = some [[1, 2], [3, 4], [5]] ∧
+    (readSource (vecOps Nat) [1, 2, 3, 4, 5] (some 9)).2 = some [[1], [2], [3], [4], [5]] ∧
+    (readSource (vecOps Nat) [1, 2, 3, 4, 5] none).2 = some [[1, 2, 3, 4, 5]] := by decide
 
 /-- In every reachable graph each node has at most one incoming edge, so following the LAST edge into a node
     (`rfind`) instead of the FIRST (`find`) gives the same walk: that code change is behaviour-preserving
@@ -418,10 +577,41 @@ example : ((run demoKit (Cfg.init [[.source 1, .derive (.front 0) (some (2, 0)) 
 def demoMid : Cfg Nat := run demoKit (Cfg.init demoProgs) [0, 0, 0, 0, 0, 1, 1, 2, 2, 2, 2, 2]
 
 example : (demoMid.threads.map (fun t => match t.pc with
-      | .drvCon p m _ => some (p, m) | .joinCon d g => some (d, g) | _ => none)) =
+      | .drvCon p m _ _ => some (p, m) | .joinCon _ _ d g _ _ _ => some (d, g) | _ => none)) =
     [none, some (0, 2), some (3, 4)] ∧ demoMid.pool = [0, 1] ∧ demoMid.g.nextId = 5 := by decide
 
 example : Reachable demoKit demoMid := ⟨demoProgs, _, rfl⟩
+
+/-- witness for the hypotheses AND the conclusions of `derive_lineage` / `join_lineage`: in `demoMid` thread 1 sits at
+    `drvCon 0 2 0 20` (parent 0, own payload 20), thread 2 at `joinCon 0 1 3 4 0 [7] [7,10]` (operands 0 and 1 with
+    their born chains); after their `connect`s the new handles' lineages are `[7,20]` = born(0) ++ [20] and
+    `[dummy, cogroup 0 [7] [7,10]]` = `[0, 1024]`, and that is what `born` records -/
+example : (demoMid.threads.map (fun t => match t.pc with
+      | .drvCon p m k n => [p, m, k, n] | .joinCon l r d g tag lc rc => [l, r, d, g, tag] ++ lc ++ rc | _ => [])) =
+    [[], [0, 2, 0, 20], [0, 1, 3, 4, 0, 7, 7, 10]] := by decide
+
+example : demoMid.born = [(0, some [7]), (1, some [7, 10])] ∧
+    (step demoKit demoMid 1).born = [(0, some [7]), (1, some [7, 10]), (2, some [7, 20])] ∧
+    (step demoKit demoMid 2).born = [(0, some [7]), (1, some [7, 10]), (4, some [0, 1024])] ∧
+    demoKit.cogroup 0 [7] [7, 10] = 1024 := by decide
+
+/-- witness for the hypotheses of `planner_error_skips_execution` (a configuration that is NOT reachable —
+    `planner_error_unreachable` — made by hand: a thread about to plan a collect of node 5 of an empty pipeline) and
+    what the step does: outcome "planner error", no user code run, thread idle (no `record_metrics_end` step) -/
+def demoBad : Cfg Nat :=
+  { g := PState.init, metrics := false, pool := [], cls := [], born := [],
+    threads := [({ todo := [], pc := PC.colSnap 5, own := [], outs := [], calls := [] } : Thread Nat)] }
+
+example : backwalk demoBad.g 5 = none ∧
+    ((step demoKit demoBad 0).threads.map (fun t => (t.calls, (match t.pc with | .idle => true | _ => false),
+      t.outs.map (fun o => match o with | .collected x none => some x | _ => none)))) = [([], true, [some 5])] ∧
+    ((step demoKit demoBad 0).threads.map siteOf) = ["done"] := by decide
+
+/-- witness: `get_metrics` answers whether a collector is installed and leaves it installed; `take_metrics` removes it -/
+example : ((run demoKit (Cfg.init [[.getMetrics, .setMetrics, .getMetrics, .getMetrics, .takeMetrics, .getMetrics]])
+      [0, 0, 0, 0, 0, 0, 0, 0, 0, 0, 0, 0]).threads.map (fun t => t.outs.map (fun o =>
+        match o with | .metricsGot b => if b then 1 else 0 | .metricsSet => 2 | .metricsTaken b => if b then 3 else 4 | _ => 9))) =
+    [[0, 2, 1, 1, 3, 0]] := by decide
 
 /-- witnesses for the hypotheses of the laziness theorems: (a) `demoMid` is a reachable configuration in which
     nobody has finished a collect (`lazy_until_collect`) and no thread sits at the end of a collect
